@@ -1,6 +1,7 @@
 import Poulpy.Driver.Util
 import Poulpy.Driver.Bdd
 import Poulpy.Model.FheUint
+import Poulpy.Model.Cbt
 /-
 Driver of the C15 model.  Request `id fheuint <sub-op> k=v …` (same keys as `pvh fheuint`, `ty=u8|u16|u32`,
 default u32):
@@ -9,6 +10,9 @@ default u32):
   `prep a= start= count=`         → `ok <word>[,<word>]`
   `word op= a= b=`                → the C13 circuit model (`evalFlat` on the generated tables) on the bits of a, b
   `bitindex ty=`                  → `ok <bit_index(0)>,…`
+  `cbtexp logn= b= resb= dnum= logdomain= lgo= data= e= prec= [old=1]` → circuit bootstrapping, exponent mode, plaintext level: table,
+                                    `lutSet`, right rotation by `data·alpha·step + e − 2^10` (`e` offset by 1024), `expRows`; per row the non-zero
+                                    coefficients decoded at `min(resb·(i+1), prec)` bits: `ok r0=<pos:val,…> r1=…`
 -/
 namespace Drv.Fheuint
 open _root_.FheUint
@@ -18,6 +22,36 @@ def tyOf (kv : List String) : Ty :=
   | some "u8" => u8
   | some "u16" => u16
   | _ => u32
+
+/-- value of a limb vector (radix `2^b`) rounded to `prec` fractional bits -/
+def decodeVec (b prec : Nat) (v : List Int) : Int :=
+  let size := v.length
+  let num := v.foldl (fun acc x => acc * 2 ^ b + x) 0            -- units of 2^{-b·size}
+  let sh := b * size - prec
+  if b * size ≤ prec then num * 2 ^ (prec - b * size) else (num + 2 ^ (sh - 1)) / 2 ^ sh
+
+def cbtexp (kv : List String) : String :=
+  let logn := kvNat kv "logn"; let n := 2 ^ logn
+  let b := kvNat kv "b"; let resB := kvNat kv "resb"; let dnum := kvNat kv "dnum"
+  let ld := kvNat kv "logdomain"; let lgo := kvNat kv "lgo"; let data := kvNat kv "data"
+  let e : Int := (kvNat kv "e" : Int) - 1024
+  let prec := kvNat kv "prec"
+  let k := resB * dnum
+  match Lut.lutSet n 1 b k (Cbt.expTable ld dnum resB) k with
+  | .ok T =>
+    let alpha := Cbt.nextPow2 dnum
+    let step := 2 * T.drift
+    let gap := Cbt.cbtGap T.drift 1
+    let size := (k + b - 1) / b
+    let P := Lut.rotate ((data * alpha * step : Nat) + e) (T.data.getD 0 [])
+    let rows := Cbt.expRows (kvNat kv "old" == 1) n logn size dnum gap lgo ld P
+    let strs := rows.mapIdx fun i row =>
+      let pr := min (resB * (i + 1)) prec
+      let nz := (row.mapIdx fun p v => (p, decodeVec b pr v)).filter fun x => x.2 ≠ 0
+      s!"r{i}=" ++ (if nz.isEmpty then "-" else ",".intercalate (nz.map fun x => s!"{x.1}:{x.2}"))
+    "ok " ++ " ".intercalate strs
+  | .panic c => s!"panic:{c}"
+  | .err c => s!"err:{c}"
 
 def handle (ts : List String) : String :=
   match ts with
@@ -35,6 +69,7 @@ def handle (ts : List String) : String :=
     | "swap" => let r := cswap (kvNat kv "bit") ea eb; s!"ok {decode T r.1},{decode T r.2}"
     | "prep" => s!"ok {prepareCustomWord T a (kvNat kv "start") (kvNat kv "count")}"
     | "word" => "ok " ++ Drv.Bdd.word ((Drv.kv kv "op").getD "add") a b
+    | "cbtexp" => cbtexp kv
     | "bitindex" => "ok " ++ showNats ((List.range T.bits).map (bitIndex T))
     | _ => "bad-op"
   | _ => "bad-op"
